@@ -13,7 +13,7 @@ RULE = ("The host machine (call -> return(value | error); panic and process deat
         "Return. distinct_nontrivial = distinct source texts executed.")
 
 # (no astronomically large integer among the operand kinds: sizes of that magnitude are outside the guarantee)
-VARS = ["vi", "vz", "vneg", "vf", "vs", "ve", "vb", "vn", "vl", "vel", "vll", "vm", "vc", "vg", "vfn", "vfv", "vmo", "vp", "vnp", "vst", "vtl", "vtm", "vcc", "vsi", "vsf", "vtmi", "vtmf", "vtls", "vnilm", "vnill", "vps", "vnilp", "vtlp", "vnl", "vtfp", "vcp", "vu", "vby", "vf32", "vi8", "vmf", "vnf", "vmfv"]
+VARS = ["vi", "vz", "vneg", "vf", "vs", "ve", "vb", "vn", "vl", "vel", "vll", "vm", "vc", "vg", "vfn", "vfv", "vmo", "vp", "vnp", "vst", "vtl", "vtm", "vcc", "vsi", "vsf", "vtmi", "vtmf", "vtls", "vnilm", "vnill", "vps", "vnilp", "vtlp", "vnl", "vtfp", "vcp", "vu", "vby", "vf32", "vi8", "vmf", "vnf", "vmfv", "vsu", "vsb", "vnmod", "vnerr"]
 
 T2 = []
 def t2(i, pre, mid, post): T2.append({"id": i, "pre": pre, "mid": mid, "post": post})
